@@ -712,6 +712,9 @@ func C01(p *core.Program, r *core.Report) {
 	r.Add("T2", "cross-object slice bounds examined", "", true, fmt.Sprintf("%d sites", nT2))
 	r.Stats["cross_object_slice_sites"] = nT2
 
+	// ---- T12
+	checkEntryNilParams(p, r, "T12")
+
 	// ---- T11
 	checkSearchBounds(p, r, "T11", fns, unitName)
 
